@@ -333,6 +333,9 @@ fn case_raw(rng: &mut Rng, i: u64, rt: &tokio::runtime::Runtime, tmp: &Path) -> 
     text.push_str(*rng.pick(&["\n", "\n", "\r\n", "\r"]));
     let n = rng.range(0, 12);
     for _ in 0..n { text.push_str(*rng.pick(RAW)); }
+    // like every file persist writes, the file ends with LF: schema inference sends the bytes through
+    // object_store's LineDelimiter, which hands over a one-chunk file ending in LF unchanged
+    if !text.ends_with('\n') { text.push('\n'); }
     let path = tmp.join(format!("raw{i}.csv"));
     std::fs::write(&path, &text).expect("write raw file");
     let r = catch_unwind(AssertUnwindSafe(|| rt.block_on(async {
